@@ -482,9 +482,20 @@ fn process_undelegations(
     current_batch: &mut CurrentBatch,
     state: &mut State,
 ) -> StdResult<Vec<CosmosMsg>> {
-    // Apply the current exchange rate.
-    let stsei_undelegation_amount = current_batch.requested_stsei * state.stsei_exchange_rate;
-    let bsei_undelegation_amount = current_batch.requested_bsei_with_fee * state.bsei_exchange_rate;
+    // Apply the current exchange rate. A pool without any booked stake reports the nominal rate 1,
+    // but it has nothing to redeem: requests against it are worth zero coins.
+    let stsei_exchange_rate = if state.total_bond_stsei_amount.is_zero() {
+        Decimal::zero()
+    } else {
+        state.stsei_exchange_rate
+    };
+    let bsei_exchange_rate = if state.total_bond_bsei_amount.is_zero() {
+        Decimal::zero()
+    } else {
+        state.bsei_exchange_rate
+    };
+    let stsei_undelegation_amount = current_batch.requested_stsei * stsei_exchange_rate;
+    let bsei_undelegation_amount = current_batch.requested_bsei_with_fee * bsei_exchange_rate;
     let delegator = env.contract.address;
 
     // Send undelegated requests to possibly more than one validators
@@ -506,12 +517,12 @@ fn process_undelegations(
         batch_id: current_batch.id,
         time: env.block.time.seconds(),
         stsei_amount: current_batch.requested_stsei,
-        stsei_applied_exchange_rate: state.stsei_exchange_rate,
-        stsei_withdraw_rate: state.stsei_exchange_rate,
+        stsei_applied_exchange_rate: stsei_exchange_rate,
+        stsei_withdraw_rate: stsei_exchange_rate,
 
         bsei_amount: current_batch.requested_bsei_with_fee,
-        bsei_applied_exchange_rate: state.bsei_exchange_rate,
-        bsei_withdraw_rate: state.bsei_exchange_rate,
+        bsei_applied_exchange_rate: bsei_exchange_rate,
+        bsei_withdraw_rate: bsei_exchange_rate,
 
         released: false,
     };
